@@ -157,7 +157,7 @@ BATCH_SOLVERS = [
     ("GenEOS", "riemann.ep_riemann.GenEOS_Solver", {"num_int_pts": 301, "num_x_pts": 801}, [0.1, 0.35, 0.55, 0.75, 0.95], 3.0, 0.2, "exact"),
     ("EHEP", "ehep.ehep.EscapeOfHEProducts", {}, [0.2, 0.5, 0.8, 1.3, 2.0], 6.0, 1.5, "exact"),
     ("Rmtv", "rmtv.rmtv.Rmtv", {}, [0.1, 0.3, 0.44, 0.6, 0.89], 1.5, 1.0, "exact"),
-    ("SuOlson", "suolson.suolson.SuOlson", {}, [0.0, 0.1, 0.5, 1.0, 5.0], 20.0, 1.0e-9, "exact"),
+    ("SuOlson", "suolson.suolson.SuOlson", {}, [0.0, 0.1, 0.5, 1.0, 5.0], 40.0, 1.0e-9, "exact"),      # far point below 1 % of T_bc (S3-C18-3)
     ("Blake", "blake.blake.Blake", {}, [0.1, 0.2, 0.4, 0.6, 0.8], 3.0, 1.6e-4, "exact"),
     ("Rod1D", "heat.rod1d.Rod1D", {}, [0.1, 0.5, 1.0, 1.5, 1.9], 2.0, 0.1, "exact"),
     ("ED_Solver", "radshocks.nED_radshocks.ED_Solver", {}, [-0.02, -0.001, 0.0, 0.001, 0.02], 0.5, 1.0e-9, "exact-shared-object"),
@@ -361,7 +361,8 @@ def run_pairs(task):
 
 
 def batch_variants(base, far):
-    """All 31 non-empty subsets, all 24 orderings of the first four points, one duplicate, one superset with a far point."""
+    """All 31 non-empty subsets, all 24 orderings of the first four points, one duplicate, three supersets with a far point (last, first,
+    middle), the reversed base."""
     idx = range(len(base))
     out = []
     for k in range(1, len(base) + 1):
@@ -371,6 +372,11 @@ def batch_variants(base, far):
         out.append(("order", [base[i] for i in perm]))
     out.append(("duplicate", [base[0], base[1], base[1], base[2]]))
     out.append(("superset", list(base) + [far]))
+    # the far point FIRST and in the middle, and the whole base reversed: a loop that stops (or switches branch) at the first point of
+    # some kind assumes an ascending request (added after the seeded change S3-C18-3)
+    out.append(("superset-first", [far] + list(base)))
+    out.append(("superset-middle", list(base[:2]) + [far] + list(base[2:])))
+    out.append(("reversed", list(base)[::-1]))
     return out
 
 
@@ -384,7 +390,7 @@ def run_batch(task):
     if name == "Mader":
         # Mader documents its input as a grid: N >= 2 ascending points (dx = (x[-1]-x[0])/N; a single point gives NaN,
         # pinned by its own test-suite docstring); orderings/duplicates are not grids
-        variants = [(k, p) for k, p in variants if k in ("subset", "superset") and len(p) >= 2]
+        variants = [(k, p) for k, p in variants if k in ("subset", "superset") and len(p) >= 2]      # ascending only
     ops = []
     for vi, (kind, pts) in enumerate(variants):
         if mode == "exact-shared-object":      # heavy constructor: one object, so here batch and call history vary together
